@@ -304,7 +304,7 @@ Lemma br_read_some m b :
     (e = None \/ (e = Some (fault (src b)) /\ pending b' = [])).
 Proof.
   intros Hinv Hm Hp. pose proof Hinv as (Hpos & Hlen & Hwf & Herr).
-  unfold br_read. destruct (bbuf b) as [|x r] eqn:Ebuf.
+  rewrite (br_read_pos _ _ Hm); unfold br_read_nz. destruct (bbuf b) as [|x r] eqn:Ebuf.
   - assert (Hps: pending b = stream_of (src b)) by (unfold pending; rewrite Ebuf; reflexivity).
     destruct (berr b) as [k|] eqn:Eb.
     { exfalso. destruct (Herr k eq_refl) as [Hc _]. apply Hp. rewrite Hps.
@@ -360,7 +360,7 @@ Proof.
   intros Hinv Hm Hp. pose proof Hinv as (Hpos & Hlen & Hwf & Herr).
   unfold pending in Hp. apply app_eq_nil in Hp. destruct Hp as [Hbuf Hstr].
   pose proof (wf_stream_nil _ Hwf Hstr) as Hch.
-  unfold br_read. rewrite Hbuf.
+  rewrite (br_read_pos _ _ Hm); unfold br_read_nz. rewrite Hbuf.
   destruct (berr b) as [k|] eqn:Eb.
   - destruct (Herr k eq_refl) as [_ Hk]. subst k.
     eexists. split; [reflexivity|].
